@@ -198,7 +198,7 @@ def run_group(pid, groups, tier, only=None, known_ids=()):
                 if feats:
                     extra += ["--features", feats]
                 log = os.path.join(VERIF, "build", "kani-%s-%s%s.log" % (pid, crate, ("-" + feats) if feats else ""))
-                rc, out, cmd = _run_kani(sc.crate_dir(crate), names, extra, 1500 if tier == "quick" else 5400, log)
+                rc, out, cmd = _run_kani(sc.crate_dir(crate), names, extra, 1500 if tier == "quick" else 7200, log)
                 res["cmd"] = (res["cmd"] + " ; " if res["cmd"] else "") + cmd
                 pr = parse_results(out, names)
                 if "error: could not compile" in out or "error[E" in out:
@@ -207,6 +207,12 @@ def run_group(pid, groups, tier, only=None, known_ids=()):
                     res["reason"] = "kani build failed: " + "; ".join(em[:4])
                 for h in bh:
                     r = pr[h["harness"]]
+                    if r["status"] == "unknown" and h["tier"] == "thorough" and "error" not in out.lower().split("timeout")[0][-2000:]:
+                        # a thorough-only harness that did not finish inside the cap: not explored (listed as such), neither
+                        # a violation nor counted as discharged; the quick-tier obligations decide the exit code
+                        res.setdefault("unexplored", []).append({"harness": h["harness"], "id": h["id"], "reason": "no verdict within the time / memory cap"})
+                        res["harness_times"].append({"harness": h["harness"], "s": r["time"], "status": "unexplored"})
+                        continue
                     ob = {"id": h["id"], "props": h["props"], "kind": "kani-" + h["kind"], "discharged": r["status"] == "ok",
                           "text": "harness %s (%s%s)" % (h["harness"], h["kind"], (", bound: " + h["bound"]) if h["bound"] else "")}
                     res["obligations"].append(ob)
